@@ -156,6 +156,14 @@ def indexUlintCast : Program :=
       .assignIdx "ar" (v "u") (.lit (some .dint) 7),
       .assign "x" (.idx "ar" (v "u"))] }
 
+/-- `p : Pt (x : INT; y : DINT); v : INT;  p.X := INT#5;  v := p.x + p.X;` — the field is named
+with another spelling than its declaration. -/
+def structFieldCase : Program :=
+  { decls := [decl "v" (.int .int)],
+    aggs := [("p", .str "Pt" [("x", .int .int), ("y", .int .dint)])],
+    body := block [.assignFld "p" "X" (.lit (some .int) 5),
+      .assign "v" (.bin .add (.fld "p" "x") (.fld "p" "X"))] }
+
 def init (p : Program) : RunState := { store := p.initStore }
 
 /-- Outcome and variables after the first cycle from the initial store. -/
